@@ -292,8 +292,22 @@ func (r *replicator) processHash(ctx context.Context, item processItem) ([]cid.C
 	}
 
 	// an aborted fetch comes back without error and without the entry
-	if _, ok := l.Get(hash); !ok {
+	fetched, ok := l.Get(hash)
+	if !ok {
 		return nil, fmt.Errorf("unable to fetch log: entry %s was not fetched", hash)
+	}
+
+	// the entry was asked for by address and must hash to it, as announced heads
+	// must: a block store keyed by digest serves the same bytes under an address
+	// that only differs by its codec, and the entry would be merged a second
+	// time under that address
+	written, err := r.store.IO().Write(ctx, r.store.IPFS(), fetched, nil)
+	if err != nil {
+		return nil, fmt.Errorf("unable to verify the address of entry %s: %w", hash, err)
+	}
+
+	if !written.Equals(hash) {
+		return nil, fmt.Errorf("unable to fetch log: entry %s does not hash to the address it was fetched by", hash)
 	}
 
 	r.muBuffer.Lock()
